@@ -355,7 +355,7 @@ package action
 //@ func (*Install).failRelease
 //@   props C03 C12 C09
 //@   requires [only-the-creator-of-a-record-fails-it] [C09] Dmine[mkkey(rel.Name, rel.Version)]
-//@   assert [the-atomic-uninstall-runs-with-the-install-s-hook-setting] [C12] at "uninstall.Timeout = i.Timeout" uninstall != nil && uninstall.DisableHooks == i.DisableHooks && !uninstall.KeepHistory && uninstall.cfg == i.cfg
+//@   assert [the-atomic-uninstall-runs-with-the-install-s-hook-setting] [C12] [C03] before "uninstall.Run(i.ReleaseName)" uninstall != nil && uninstall.DisableHooks == i.DisableHooks && !uninstall.KeepHistory && uninstall.cfg == i.cfg
 //@   requires i != nil && cfgReady(i.cfg) && rel != nil && rel.Info != nil && err != nil && ledgerWF()
 //@   ensures [marked-failed] rel.Info.Status == "failed" || old(i.Atomic)
 //@   ensures [reports-error] result1 != nil && result0 == rel
@@ -372,7 +372,7 @@ package action
 //@   ensures [touches-only-this-release] !old(u.Atomic) ==> forall inf *release.Info :: inf != rel.Info ==> inf.Status == old(inf.Status)
 //@   ensures [no-cleanup-without-flag] !old(u.CleanupOnFail) && !old(u.Atomic) ==> Kdeleted == old(Kdeleted) && Kmutated == old(Kmutated)
 //@   ensures [atomic-restores-a-stored-revision] at "has been rolled back due to atomic" (exists v int, t int :: old(Dex)[mkkey(rel.Name, t)] && !old(Dex)[mkkey(rel.Name, v)] && Dex[mkkey(rel.Name, v)] && Dattempt[mkkey(rel.Name, v)] == "deployed" && (Dman[mkkey(rel.Name, v)] == old(Dman)[mkkey(rel.Name, t)] || Dman[mkkey(rel.Name, v)] == rel.Manifest))
-//@   assert [the-atomic-rollback-runs-with-the-upgrade-s-settings] [C12] at "rollin.Timeout = u.Timeout" rollin != nil && rollin.DisableHooks == u.DisableHooks && rollin.WaitForJobs == u.WaitForJobs && rollin.Recreate == u.Recreate && rollin.Force == u.Force && rollin.cfg == u.cfg
+//@   assert [the-atomic-rollback-runs-with-the-upgrade-s-settings] [C12] [C03] before "rollin.Run(rel.Name)" rollin != nil && rollin.DisableHooks == u.DisableHooks && rollin.WaitForJobs == u.WaitForJobs && rollin.Recreate == u.Recreate && rollin.Force == u.Force && rollin.cfg == u.cfg
 //@   ensures [atomic-always-reaches-the-rollback] before "if u.Atomic {" !old(u.Atomic)
 //@   ensures [cleanup-deletes-only-created] old(u.CleanupOnFail) && !old(u.Atomic) ==> Kdeleted == old(Kdeleted) || Kdeleted == store(old(Kdeleted), builtFrom(created), true)
 //@   loop 1 invariant Kdeleted == store(old(Kdeleted), builtFrom(created), true) && rel.Info.Status == "failed"
